@@ -16,6 +16,8 @@
 //   burst <ab|ba> <count> <seed> <maxlen>  count sends, i-th payload gen_payload(burst_len(seed,i,maxlen), seed*1000003+i)
 //                                                                                                      -> sent=<k>
 //   drain <ab|ba>                          marker + wait; handler log since the previous drain         -> n=<k> <item>,<item>… | timeout …
+//   rekey <key hex32>                      wait until both readers are idle, then register_peer_key(new key) for the live A<->B session
+//                                          at both ends (the raw peer's session keeps the handshake key)               -> ok | timeout
 //   csend <ab|ba> <threads> <count> <len> <seed> <sndbuf>
 //                                          <threads> threads call SessionManager::send for the same peer at the same time, <count>
 //                                          payloads of <len> bytes each (payload i of thread t = gen_payload(len, seed*1000003+t*1009+i));
@@ -270,6 +272,40 @@ std::vector<std::vector<std::uint8_t>> collect(const std::string& dir, int timeo
     return out;
 }
 
+// wait until everything sent so far in this direction has been handled by the peer's reader thread (which is then back
+// at the top of its loop, waiting for the next nonce); unlike `drain` the log keeps its entries, only the marker goes
+bool quiesce(const std::string& dir, int timeout_ms) {
+    auto* from = sender_of(dir);
+    Log& log = dir == "ab" ? W->logB : W->logA;
+    const PeerId& to = dir == "ab" ? W->idB : W->idA;
+    const std::string src = peer_id_to_string(dir == "ab" ? W->idA : W->idB);
+    std::vector<std::uint8_t> marker = {'V', 'E', 'R', 'I', 'F', '-', 'D', 'R', 'A', 'I', 'N', '-'};
+    const std::uint32_t c = ++W->markers;
+    for (int s = 24; s >= 0; s -= 8) marker.push_back(static_cast<std::uint8_t>(c >> s));
+    if (!from->send(to, marker)) return false;
+    std::unique_lock<std::mutex> l(log.m);
+    auto& v = log.by_peer[src];
+    const bool seen = log.cv.wait_for(l, std::chrono::milliseconds(timeout_ms),
+                                      [&] { return std::find(v.begin(), v.end(), marker) != v.end(); });
+    if (seen) v.erase(std::find(v.begin(), v.end(), marker));
+    return seen;
+}
+
+// key rotation on the live A <-> B session: SessionManager::register_peer_key at both ends, while both reader threads are
+// idle at a frame boundary (a frame in flight across a key replacement is a race the property does not cover)
+std::string do_rekey(const std::string& key_hex) {
+    const auto kb = verif::from_hex(key_hex);
+    if (kb.size() != 32) return "bad-op";
+    if (!quiesce("ab", 30000) || !quiesce("ba", 30000)) return "timeout";
+    // the handler returns before receive_loop goes round: give the readers a moment to reach the next recv
+    std::this_thread::sleep_for(std::chrono::milliseconds(2));
+    std::array<std::uint8_t, 32> k{};
+    std::copy(kb.begin(), kb.end(), k.begin());
+    W->A->register_peer_key(W->idB, k);
+    W->B->register_peer_key(W->idA, k);
+    return "ok";
+}
+
 std::string do_drain(const std::string& dir) {
     if (!sender_of(dir)) return "bad-op";
     std::string status;
@@ -477,6 +513,7 @@ int main(int argc, char** argv) {
             return "sent=" + std::to_string(ok);
         }
         if (op == "drain" && t.size() == 2) return do_drain(t[1]);
+        if (op == "rekey" && t.size() == 2) return do_rekey(t[1]);
         if (op == "csend" && t.size() == 7)
             return do_csend(t[1], std::stoull(t[2]), std::stoull(t[3]), std::stoull(t[4]), std::stoull(t[5]), std::stoi(t[6]));
         if (op == "cdrain" && t.size() == 3) return do_cdrain(t[1], std::stoi(t[2]));
